@@ -167,6 +167,7 @@ def version_selection(grid):
 
 
 def build(tier):
+    P.contract()  # tabulated once here, inherited by every forked explorer
     grid = version_grid() + EXTRA
     hs = [
         Harness("constructor-matrix", constructor_matrix(),
